@@ -153,6 +153,20 @@ var ops = []opDef{
 		}
 		return e == nil
 	}},
+	// Sqrt of a value given as text (the generator aims it at neighbourhoods of perfect squares)
+	{"SqrtOf", "z", func(a bargs) any {
+		v, ok := new(big.Int).SetString(a.s, 10)
+		if !ok {
+			return "bad"
+		}
+		return ptrRes(a.z.Sqrt(v), a.z)
+	}, func(a aargs) any {
+		v, ok := new(apd.BigInt).SetString(a.s, 10)
+		if !ok {
+			return "bad"
+		}
+		return ptrRes(a.z.Sqrt(v), a.z)
+	}},
 	{"SetBytes", "z", func(a bargs) any { return ptrRes(a.z.SetBytes(a.x.Bytes()), a.z) }, func(a aargs) any { return ptrRes(a.z.SetBytes(a.x.Bytes()), a.z) }},
 	{"SetBits", "z", func(a bargs) any { return ptrRes(a.z.SetBits(append([]big.Word(nil), a.x.Bits()...)), a.z) },
 		func(a aargs) any { return ptrRes(a.z.SetBits(append([]big.Word(nil), a.x.Bits()...)), a.z) }},
@@ -286,6 +300,23 @@ func genCase(t *rapid.T) Case {
 			default:
 				s.S = genValue(t, "ustr2").Text(10)
 			}
+		}
+		if s.Op == "SqrtOf" {
+			// r^2 + d for a root of every bit length up to 66
+			bits := rapid.IntRange(1, 66).Draw(t, "rootbits")
+			r := new(big.Int).SetUint64(rapid.Uint64().Draw(t, "rootv"))
+			r.SetBit(r, 63, 1)
+			if bits <= 64 {
+				r.Rsh(r, uint(64-bits))
+			} else {
+				r.Lsh(r, uint(bits-64))
+			}
+			v := new(big.Int).Mul(r, r)
+			v.Add(v, big.NewInt(int64(rapid.IntRange(-2, 2).Draw(t, "sqd"))))
+			if v.Sign() < 0 {
+				v.SetInt64(0)
+			}
+			s.S = v.String()
 		}
 		if s.Op == "SetString" {
 			if b := base(s.N); b != 0 {
